@@ -41,6 +41,10 @@ RULES = [
     'level of the block, or for loops whose bodies store at their top level with no continue / break / return before the '
     'store; otherwise the event Uninit (rejected). That the index expressions of the stores cover every element is NOT '
     'verified statically (validated by the allocator-poisoning stream of the dynamic harness)',
+    'scipy routine(.., overwrite_<x>=True): the named operand must be a fresh array -- not reachable through views (.T, reshape, '
+    'transpose, basic slices, asarray, iteration over a list argument) from a parameter of a public function, nor, for a private '
+    'helper, from what its call sites pass; an index that is certainly an array (np.where(..)[0], comparison, arithmetic) makes a '
+    'copy; otherwise Unknown (the caller\'s data would be overwritten: hidden-state channel). overwrite_ on a non-SciPy call is Unknown',
     'implicit exceptions raised inside NumPy are not modelled outside try blocks (they abort the call and are functions of '
     'the data); inside a try block every statement may raise',
 ]
@@ -1556,7 +1560,203 @@ class Tr:
             out.append(self.U(f.node, 'decorated function'))
         out += self.default_value_events()
         out += self.uninit_events()
+        out += self.overwrite_events()
         return seq(out + self.stmts(f.node.body))
+
+    # ---- overwrite_*=True on an operand that may share memory with an argument ----------------------------------------
+    VIEW_FUNCS = {'numpy.reshape', 'numpy.transpose', 'numpy.asarray', 'numpy.asanyarray', 'numpy.ravel', 'numpy.squeeze',
+                  'numpy.swapaxes', 'numpy.moveaxis', 'numpy.atleast_1d', 'numpy.atleast_2d', 'numpy.atleast_3d',
+                  'numpy.expand_dims', 'numpy.broadcast_to', 'numpy.asfortranarray', 'numpy.ascontiguousarray',
+                  'numpy.real', 'numpy.imag', 'numpy.diagonal', 'numpy.rollaxis', 'numpy.lib.stride_tricks.as_strided',
+                  'teneva._reshape', 'teneva.utils._reshape'}
+    VIEW_METHODS = {'reshape', 'transpose', 'ravel', 'squeeze', 'view', 'swapaxes', 'diagonal', 'astype'}
+    VIEW_ATTRS = {'T', 'real', 'imag', 'flat', 'mT'}
+    ARRAY_MAKERS = {'numpy.where', 'numpy.nonzero', 'numpy.argsort', 'numpy.array', 'numpy.arange', 'numpy.argwhere',
+                    'numpy.flatnonzero', 'numpy.unique', 'numpy.argmax', 'numpy.argmin'}
+
+    def _own_nodes(self, node):
+        todo = list(ast.iter_child_nodes(node))
+        while todo:
+            x = todo.pop()
+            yield x
+            if not isinstance(x, (ast.FunctionDef, ast.AsyncFunctionDef, ast.Lambda, ast.ClassDef)):
+                todo.extend(ast.iter_child_nodes(x))
+
+    def _defs(self, name):
+        """right-hand sides bound to `name` in this function: ('val', expr) | ('elem', iterable expr) | ('param',)"""
+        f = self.fn
+        out = []
+        if name in f.params + f.kwonly or name in (f.vararg, f.kwarg):
+            out.append(('param',))
+        for n in self._own_nodes(f.node):
+            if isinstance(n, ast.Assign):
+                for t in n.targets:
+                    if isinstance(t, ast.Name) and t.id == name:
+                        out.append(('val', n.value))
+                    elif isinstance(t, (ast.Tuple, ast.List)) and name in self.target_names(t):
+                        if isinstance(n.value, (ast.Tuple, ast.List)) and len(n.value.elts) == len(t.elts):
+                            for te, ve in zip(t.elts, n.value.elts):
+                                if name in self.target_names(te):
+                                    out.append(('val', ve))
+                        else:
+                            out.append(('elem', n.value))
+            elif isinstance(n, (ast.For, ast.comprehension)) and name in self.target_names(n.target):
+                it, tg = n.iter, n.target
+                if isinstance(it, ast.Call) and isinstance(it.func, ast.Name) and it.func.id == 'enumerate' and it.args and \
+                        isinstance(tg, ast.Tuple) and len(tg.elts) == 2:
+                    if name in self.target_names(tg.elts[0]):
+                        continue                                 # the counter
+                    it, tg = it.args[0], tg.elts[1]
+                if isinstance(it, ast.Call) and isinstance(it.func, ast.Name) and it.func.id == 'zip' and isinstance(tg, ast.Tuple) \
+                        and len(tg.elts) == len(it.args):
+                    for a, g in zip(it.args, tg.elts):
+                        if name in self.target_names(g):
+                            out.append(('elem', a))
+                elif isinstance(it, ast.Call) and isinstance(it.func, ast.Name) and it.func.id == 'range':
+                    continue
+                else:
+                    out.append(('elem', it))
+            elif isinstance(n, (ast.AugAssign, ast.AnnAssign)) and isinstance(n.target, ast.Name) and n.target.id == name:
+                out.append(('aug',))
+        return out
+
+    def _index_is_basic(self, ix, seen):
+        """may this subscript be basic indexing (a view)?  False only if it certainly is advanced indexing (a copy)"""
+        if isinstance(ix, ast.Tuple):
+            return all(self._index_is_basic(e, seen) for e in ix.elts)
+        if isinstance(ix, (ast.Slice, ast.Constant)):
+            return True
+        if isinstance(ix, (ast.Compare, ast.BinOp, ast.BoolOp, ast.List, ast.ListComp)):
+            return False                                          # an array / list valued index
+        if isinstance(ix, ast.Call):
+            return self.dotted(ix.func) not in self.ARRAY_MAKERS
+        if isinstance(ix, ast.Subscript):
+            return self._index_is_basic(ix.value, seen)           # np.where(..)[0]
+        if isinstance(ix, ast.Name):
+            if ix.id in seen:
+                return True
+            ds = self._defs(ix.id)
+            vals = [d[1] for d in ds if d[0] == 'val']
+            if ds and len(vals) == len(ds) and all(not self._index_is_basic(v, seen | {ix.id}) for v in vals):
+                return False
+            return True
+        return True
+
+    def may_alias(self, e, seen=frozenset(), depth=0):
+        """-> None if the value of e is certainly a fresh array, else a short description of the argument it may share memory with"""
+        if e is None or isinstance(e, (ast.Constant, ast.BinOp, ast.UnaryOp, ast.Compare, ast.BoolOp, ast.List, ast.Tuple, ast.Dict,
+                                       ast.ListComp, ast.JoinedStr, ast.Lambda)):
+            return None
+        if isinstance(e, ast.IfExp):
+            return self.may_alias(e.body, seen, depth) or self.may_alias(e.orelse, seen, depth)
+        if isinstance(e, ast.Starred):
+            return self.may_alias(e.value, seen, depth)
+        if isinstance(e, ast.Attribute):
+            if e.attr in self.VIEW_ATTRS:
+                return self.may_alias(e.value, seen, depth)
+            if isinstance(e.value, ast.Name) and e.value.id == 'self':
+                return f'field self.{e.attr}'
+            return None
+        if isinstance(e, ast.Subscript):
+            if not self._index_is_basic(e.slice, frozenset()):
+                return None
+            return self.may_alias(e.value, seen, depth)
+        if isinstance(e, ast.Call):
+            d = self.dotted(e.func)
+            if d in self.VIEW_FUNCS and e.args:
+                return self.may_alias(e.args[0], seen, depth)
+            if d is None and isinstance(e.func, ast.Attribute) and e.func.attr in self.VIEW_METHODS:
+                if e.func.attr == 'astype' and not any(k.arg == 'copy' for k in e.keywords):
+                    return None
+                return self.may_alias(e.func.value, seen, depth)
+            return None                                           # any other call returns a new array
+        if isinstance(e, ast.Name):
+            if e.id in seen:
+                return None
+            seen = seen | {e.id}
+            for dfn in self._defs(e.id):
+                if dfn[0] == 'param':
+                    r = self._param_alias(e.id, depth)
+                    if r:
+                        return r
+                elif dfn[0] in ('val', 'elem'):
+                    r = self.may_alias(dfn[1], seen, depth)
+                    if r:
+                        return r
+            return None
+        return None
+
+    def _param_alias(self, pname, depth):
+        """parameter pname of this function: an argument of the user (exported / public function), or -- for a private helper --
+        whatever the call sites inside teneva pass"""
+        f = self.fn
+        public = f.exported or not (f.node.name.startswith('_') or f.parent is not None) if f.kind != 'lambda' else False
+        if public or depth >= 3 or f.kind == 'lambda':
+            return f'parameter {pname} of {f.qname}'
+        sites = 0
+        for g in self.P.fns.values():
+            if g.kind == 'lambda' or g is f:
+                continue
+            sub = Tr(self.P, g)
+            for c in sub._own_nodes(g.node):
+                if not isinstance(c, ast.Call):
+                    continue
+                fn_ = c.func
+                nm = fn_.id if isinstance(fn_, ast.Name) else fn_.attr if isinstance(fn_, ast.Attribute) else None
+                if nm != f.node.name:
+                    continue
+                if isinstance(fn_, ast.Name) and g.module is not f.module:
+                    continue
+                sites += 1
+                arg = None
+                if pname in f.params and f.params.index(pname) < len(c.args) and not any(isinstance(a, ast.Starred) for a in c.args):
+                    arg = c.args[f.params.index(pname)]
+                for k in c.keywords:
+                    if k.arg == pname:
+                        arg = k.value
+                    if k.arg is None:
+                        return f'parameter {pname} of {f.qname} (call with ** at {g.qname})'
+                if arg is None:
+                    continue
+                r = sub.may_alias(arg, frozenset(), depth + 1)
+                if r:
+                    return f'parameter {pname} of {f.qname} <- {r}'
+        if sites == 0:
+            return f'parameter {pname} of {f.qname} (no call site found)'
+        return None
+
+    def overwrite_events(self):
+        """sp.linalg.<routine>(.., overwrite_a / overwrite_b / overwrite_x = True): LAPACK may write into the operand; if the
+        operand may share memory with an argument of the user (through views: transpose, reshape, basic slices, iteration over a
+        list argument), later calls on the same objects see other data -- a hidden-state channel (Unknown, rejected)."""
+        f = self.fn
+        if f.kind == 'lambda':
+            return []
+        out = []
+        for c in self._own_nodes(f.node):
+            if not isinstance(c, ast.Call):
+                continue
+            d = self.dotted(c.func)
+            for k in c.keywords:
+                if not (k.arg and k.arg.startswith('overwrite_')):
+                    continue
+                if isinstance(k.value, ast.Constant) and not k.value.value:
+                    continue
+                if not (d and d.split('.')[0] == 'scipy'):
+                    out.append(self.U(c, f'{k.arg}= on a call that is not a SciPy routine'))
+                    continue
+                suffix = k.arg[len('overwrite_'):]
+                # positional operand named by the suffix: a -> 1st, b -> 2nd; anything else: all array operands
+                idx = {'a': [0], 'b': [1], 'x': [0], 'ab': [0], 'v': [0]}.get(suffix, list(range(len(c.args))))
+                if suffix == 'b' and d.endswith(('solve_banded', 'solveh_banded', 'cho_solve', 'lu_solve', 'cho_solve_banded')):
+                    idx = [1]
+                for j in idx:
+                    if j < len(c.args):
+                        r = self.may_alias(c.args[j])
+                        if r:
+                            out.append(self.U(c, f'{d}(.., {k.arg}=True): the operand may share memory with {r} (the argument is '
+                                                 f'overwritten; later calls on the same object see other data)'))
+        return out
 
     # ---- storage from np.empty / np.empty_like -------------------------------------------------------------------------
     UNINIT_CTORS = {'numpy.empty', 'numpy.empty_like', 'numpy.ndarray'}
